@@ -546,7 +546,7 @@ func (m *Machine) intrinsic(s *State, f *Frame, x *ssa.Call, name string, callee
 		f.env[x] = v
 		s.pc = append(s.pc, c.Cmp("bvsge", sc(v), c.BV(0, 64)), c.Cmp("bvslt", sc(v), sc(args[0])))
 		return nil, true
-	case strings.HasPrefix(name, "strings.") || strings.HasPrefix(name, "net/url."):
+	case strings.HasPrefix(name, "strings.") || strings.HasPrefix(name, "net/url.") || strings.HasPrefix(name, "strconv."):
 		if m.nativeStringFn(s, f, x, name, args) {
 			return nil, true
 		}
@@ -651,9 +651,20 @@ func (m *Machine) intrinsic(s *State, f *Frame, x *ssa.Call, name string, callee
 		t := args[1].(IfaceV)
 		res := false
 		if e.typ != nil && t.typ != nil {
-			for cur := e.v.(*ErrV); cur != nil; cur = cur.cause {
-				if cur == t.v.(*ErrV) {
-					res = true
+			ev, ok1 := e.v.(*ErrV)
+			tv, ok2 := t.v.(*ErrV)
+			if ok1 && ok2 {
+				for cur := ev; cur != nil; cur = cur.cause {
+					if cur == tv {
+						res = true
+					}
+				}
+			} else if !ok1 && !ok2 {
+				// error values that are ordinary Go objects (e.g. *strconv.NumError): identity only
+				if p1, isP1 := e.v.(Ptr); isP1 {
+					if p2, isP2 := t.v.(Ptr); isP2 {
+						res = p1.obj == p2.obj
+					}
 				}
 			}
 		}
